@@ -246,7 +246,7 @@ ADDED = {
     "C08": "Also: WhoIs failures that are context errors, media types that merely start with application/json, status tables and the get dispatch regenerated from the source (status_tables, generated_get_dispatch), wire bodies (Model/Wire). Sixth round: the body classifier is the harness's own mirror of the request shapes; versions beyond 32 bits, negative, fractional, quoted; every request is answered (watchdog). Seventh round: forwarding headers; loopback peers. T1 also ties the property's central functions statement by statement (fact_*_as_transcribed / fact_*_shape theorems in the property file).",
     "C09": "Also: a gateway error on the client's first exchange, and concurrent histories (a conditional get naming V never receives V; a non-linearizable history that becomes linearizable without its conditional gets is blamed on them). Sixth round: a call or request that never returns is reported with the calls under way (four_outcomes). Seventh round: a compressing proxy on the client route; returned values wiped by the caller. T1 also ties the property's central functions statement by statement (fact_*_as_transcribed / fact_*_shape theorems in the property file).",
     "C10": "Also: service failures that wrap context.DeadlineExceeded while every context is alive, cancellation (not only deadlines) during construction, construction under a watchdog, empty values in caches, untidy prefixes for struct-tagged names. Sixth round: outages of 35-95 s at construction with a live context; a crash inside the code under test is an observation and the partial trace is judged (init_complete). Seventh round: cache_or_file_suffices for file-backed clients with a cache. T1 also ties the property's central functions statement by statement (fact_*_as_transcribed / fact_*_shape theorems in the property file).",
-    "C11": "Also: same-bytes versions, a poll round abandoned by its starter and joined by a second caller, a poller watchdog, freshness of every handle after a completed refresh, cache_holds_same; the ticker period as written in the source, translated to Lean on every run (gen_pollPeriod, theorem cadence_generated over all intervals and all draws). Sixth round: a second store in the process while the first store's poll is held; the real ticker under virtual time (cadence) compared with the generated period expression. Seventh round: cadence with a slow service. Last session: StoreConfig.pollInterval and NewStore's guard on starting the poller translated to Lean on every run (gen_pollInterval, gen_startsPoller; theorem configured_interval_generated: for every positive configured interval the poller is started with that very interval and its period lies within a tenth of it); the cadence monitor's clause is a model definition (Cadence.cadenceOK) proved sound and complete for a ticker of constant period and sound for the generated period expression (cadence_monitor_sound). T1 also ties the property's central functions statement by statement (fact_*_as_transcribed / fact_*_shape theorems in the property file).",
+    "C11": "Also: same-bytes versions, a poll round abandoned by its starter and joined by a second caller, a poller watchdog, freshness of every handle after a completed refresh, cache_holds_same; the ticker period as written in the source, translated to Lean on every run (gen_pollPeriod, theorem cadence_generated over all intervals and all draws). Sixth round: a second store in the process while the first store's poll is held; the real ticker under virtual time (cadence) compared with the generated period expression. Seventh round: cadence with a slow service. Last session: StoreConfig.pollInterval and NewStore's guard on starting the poller translated to Lean on every run (gen_pollInterval, gen_startsPoller; theorem configured_interval_generated: for every positive configured interval the poller is started with that very interval and its period lies within a tenth of it); the cadence monitor's clause is a model definition (Cadence.cadenceOK) proved sound and complete for a ticker of constant period and sound for the generated period expression (cadence_monitor_sound); the family's model-correspondence clause (Cadence.modelOK) likewise (cadence_model_clause_sound). T1 also ties the property's central functions statement by statement (fact_*_as_transcribed / fact_*_shape theorems in the property file).",
     "C12": "Also: the late second flight, a held poll abandoned while the service moves on, retained slices that must never change, a failed updater lookup after which readers must still progress. T1 also ties the property's central functions statement by statement (fact_*_as_transcribed / fact_*_shape theorems in the property file).",
     "C13": "Also: transient cache write failures, a slow synchronised cache with a cache-behind check at every quiescent point, files that exist with mode 0644 or longer contents. Sixth round: after every kill of a cache write a shorter document is written and must be exactly the file's content. Seventh round: polling-disabled configuration (flush_after_init); a failing lookup concurrent with successful ones. T1 also ties the property's central functions statement by statement (fact_*_as_transcribed / fact_*_shape theorems in the property file).",
     "C14": "Also: histories with vanishing state directory (the search admits 'internal error, nothing changed' for calls whose save may have failed), list-heavy histories by an exact-name caller under lock contention, several callers putting the same new bytes at once, empty values. Sixth round: half of the histories restart the database between preparation and the concurrent calls; every_call_returns. Seventh round: the legacy capability name in half of the concurrent HTTP histories. T1 also ties the property's central functions statement by statement (fact_*_as_transcribed / fact_*_shape theorems in the property file).",
